@@ -401,7 +401,7 @@ class Interp(object):
 
     def elab_indexed_const(self, e):
         # (_ bvN w)
-        if len(e) == 3 and isinstance(e[1], Sym) and e[1].name.startswith("bv") and e[1].name[2:].isdigit() \
+        if len(e) == 3 and isinstance(e[1], Sym) and e[1].name.startswith("bv") and e[1].name[2:] != "" and all(c in _DIGITS for c in e[1].name[2:]) \
                 and isinstance(e[2], Num) and e[2].v > 0:
             v, w = int(e[1].name[2:]), e[2].v
             if v >= (1 << w):
